@@ -152,67 +152,6 @@ def setsLenKnownL : List Payload → Bool
   | p :: ps => setsLenKnown p && setsLenKnownL ps
 end
 
-/-! ## Regular type pairs
-
-`dynamicReplace` computes the type of the result for a null or unknown input; its
-doc comment says it "assumes that in and out are compatible".  `regular E inT out`
-spells that assumption out, position by position (the positions `dynamicReplace`
-itself pairs up), for a placeholder-free `out`: an object target faces a map or an
-object, a tuple target a tuple that is at least as long; where a list / set / map
-target faces a tuple / object, `dynamicReplace` continues with the *unified* type of
-the elements / attributes (`E.unify`), so that type must be compatible with the
-target's element type as well as every element / attribute type itself. -/
-mutual
-def regular (E : Env) : (inT out : Ty) → Bool
-  | inT, out =>
-    if inT.isDyn then true
-    else match out with
-      | .map oe =>
-        match inT with
-        | .map ie => regular E ie oe
-        | .object _ its _ =>
-          (its.all fun it => regular E it oe) &&
-            (match E.unifyG true its with
-             | none => true
-             | some u => regular E u oe)
-        | _ => true
-      | .list oe | .set oe =>
-        match inT with
-        | .list ie | .set ie => regular E ie oe
-        | .tuple its =>
-          (its.all fun it => regular E it oe) &&
-            (match E.unifyG true its with
-             | none => true
-             | some u => regular E u oe)
-        | _ => true
-      | .object on ots oo =>
-        match inT with
-        | .map ie => regularAll E ie ots
-        | .object inn its ios => regularObj E inn its ios on ots
-        | _ => false
-      | .tuple ots =>
-        match inT with
-        | .tuple its => decide (ots.length ≤ its.length) && regularZip E its ots
-        | _ => false
-      | _ => true
-termination_by structural _ out => out
-def regularAll (E : Env) : Ty → List Ty → Bool
-  | _, [] => true
-  | ie, o :: os => regular E ie o && regularAll E ie os
-termination_by structural _ os => os
-def regularObj (E : Env) : List String → List Ty → List Bool → List String → List Ty → Bool
-  | inn, its, ios, n :: ns, o :: os =>
-    (match Ty.find n inn its ios with
-     | some (it, _) => regular E it o
-     | none => true) && regularObj E inn its ios ns os
-  | _, _, _, _, _ => true
-termination_by structural _ _ _ _ os => os
-def regularZip (E : Env) : List Ty → List Ty → Bool
-  | it :: its, o :: os => regular E it o && regularZip E its os
-  | _, _ => true
-termination_by structural _ os => os
-end
-
 /-! ## What the theorems assume of the parameters -/
 
 /-- the law of the `unify` parameter used by the C08 theorems (a statement about
